@@ -11,9 +11,8 @@ import CG.Proofs.TopoOrders
 #print axioms CG.TopoThm.lagsSorted_iff
 #print axioms CG.TopoThm.kahn_lag_sorted
 #print axioms CG.TopoThm.allTimeTopo_iff
+#print axioms CG.TopoThm.allTimeTopo_iff'
 #print axioms CG.TopoThm.allTimeTopo_eq
-#print axioms CG.TopoThm.allTimeTopo_eq'
 #print axioms CG.TopoThm.allTimeTopo_nil
 #print axioms CG.TopoThm.allTopo_nil
-#print axioms CG.TopoThm.allTimeTopo_empty_defect
-#print axioms CG.TopoThm.allTimeTopo_eq_fails_on_empty
+#print axioms CG.TopoThm.allTimeTopo_ne_nil
